@@ -156,6 +156,15 @@ func (f *multiFam) play(l *Line, out *rec) error {
 	} else {
 		logger = zerolog.New(ws[0])
 	}
+	if crc32.ChecksumIEEE([]byte(l.ID))%5 >= 3 {
+		// two histories in five: the logger gets its destination afterwards, the way applications re-target a configured logger
+		// (Logger.Output, log.Output): a level-aware destination must stay level-aware - same fan-out, same levels, same filters
+		var w io.Writer = ws[0]
+		if c.Multi {
+			w = zerolog.MultiLevelWriter(ws...)
+		}
+		logger = zerolog.New(io.Discard).Output(w)
+	}
 	out.emit(map[string]interface{}{"a": "Reset", "conf": c.Name, "id": l.ID})
 	if crc32.ChecksumIEEE([]byte(l.ID))%3 == 0 { // every third history: re-entrant destinations
 		sl := zerolog.New(io.Discard)
